@@ -2,7 +2,7 @@
 from __future__ import annotations
 
 import ast
-from typing import Dict, Iterable, List, Optional, Tuple
+from typing import Any, Dict, Iterable, List, Optional, Tuple
 
 from .cfg import CFG, build_cfg
 from .exprs import Defs, norm
@@ -16,6 +16,40 @@ class Ctx:
         self.r = Resolver(self.u)
         self._defs: Dict[str, Defs] = {}
         self._cfg: Dict[str, CFG] = {}
+        self._rule_stack: List[str] = []
+        self._rule_cache: Dict[Tuple[str, str, str], Any] = {}
+        self._rule_tainted: set = set()
+
+    # ------------------------------------------------- rules shared between properties
+    def sub_run(self, module: str, rep: Any) -> Any:
+        """
+        Runs the rules of another property (``sa.rules.<module>``) into a fresh sub-report whose obligations the
+        caller may adopt.  Each module runs at most once per process; a module that is already running further up
+        the stack (adoption cycle: C06 -> C11 -> C10 -> C06) contributes nothing to the inner request, and results
+        computed under such a cut are not cached.
+        """
+        import importlib
+
+        from .report import Report
+
+        key = (module, rep.prop, rep.tier)
+        if key in self._rule_cache:
+            return self._rule_cache[key]
+        sub = Report(rep.prop, rep.tier)
+        if module in self._rule_stack:
+            for m in self._rule_stack[self._rule_stack.index(module) + 1 :]:
+                self._rule_tainted.add(m)
+            return sub
+        self._rule_stack.append(module)
+        try:
+            importlib.import_module(f"sa.rules.{module}").run(self, sub)
+        finally:
+            self._rule_stack.pop()
+        if module in self._rule_tainted:
+            self._rule_tainted.discard(module)
+        else:
+            self._rule_cache[key] = sub
+        return sub
 
     # ------------------------------------------------------------ caches
     def defs(self, fn: FuncInfo) -> Defs:
@@ -107,6 +141,59 @@ class Ctx:
         if isinstance(expr, ast.Call):
             expr = expr.func
         return self.r.resolve_class(fn.module, expr)
+
+    def exc_classes(self, fn: FuncInfo, expr: Optional[ast.expr], depth: int = 4) -> Optional[List[ClassInfo]]:
+        """
+        Every class a ``raise <expr>`` may instantiate: a class named directly, or a local bound to a choice
+        among classes (``table.get(key, Default)``, ``table[key]``, ``A if c else B``).  None = unknown.
+        """
+        if expr is None or depth <= 0:
+            return None
+        if isinstance(expr, ast.Call) and not (isinstance(expr.func, ast.Attribute) and expr.func.attr == "get"):
+            expr = expr.func
+        cls = self.r.resolve_class(fn.module, expr)
+        if cls is not None:
+            return [cls]
+        defs = self.defs(fn)
+
+        def table_values(name_expr: ast.AST) -> Optional[List[ClassInfo]]:
+            tab = name_expr
+            if isinstance(tab, ast.Name):
+                tab = defs.single(tab.id)
+                if tab is None:
+                    got = self.r.resolve_expr(fn.module, name_expr)
+                    tab = got.target if got is not None and got.kind == "value" else None
+            if not isinstance(tab, ast.Dict):
+                return None
+            out: List[ClassInfo] = []
+            for v in tab.values:
+                sub = self.exc_classes(fn, v, depth - 1)
+                if sub is None:
+                    return None
+                out += sub
+            return out
+
+        if isinstance(expr, ast.Name):
+            vals = defs.all_values(expr.id)
+            if not vals:
+                return None
+            out: List[ClassInfo] = []
+            for v in vals:
+                sub = self.exc_classes(fn, v, depth - 1)
+                if sub is None:
+                    return None
+                out += sub
+            return out
+        if isinstance(expr, ast.IfExp):
+            a, b = self.exc_classes(fn, expr.body, depth - 1), self.exc_classes(fn, expr.orelse, depth - 1)
+            return None if a is None or b is None else a + b
+        if isinstance(expr, ast.Subscript):
+            return table_values(expr.value)
+        if isinstance(expr, ast.Call) and isinstance(expr.func, ast.Attribute) and expr.func.attr == "get" and len(expr.args) == 2:
+            vals = table_values(expr.func.value)
+            dflt = self.exc_classes(fn, expr.args[1], depth - 1)
+            return None if vals is None or dflt is None else vals + dflt
+        return None
 
     def exc_matches(self, fn: FuncInfo, raised: Optional[ast.expr], caught: Optional[ast.expr]) -> bool:
         """Does ``except <caught>`` catch ``raise <raised>``?  Unknown -> name comparison."""
